@@ -49,7 +49,7 @@ func c11Config(opts *[]ucfg.Option) *ucfg.Config {
 func H_C11_np_reads() {
 	var opts []ucfg.Option
 	c := c11Config(&opts)
-	op := verif.Choice("op", 16)
+	op := verif.Choice("op", 19)
 	other := ucfg.New()
 	verif.ReadOnlyBegin("C11/read operation writes to the config", c)
 	switch op {
@@ -116,6 +116,22 @@ func H_C11_np_reads() {
 		ch, err := c.Child("l", -1, opts...)
 		if err == nil {
 			ch.Unpack(&l, opts...)
+		}
+	case 16:
+		// merge source embedded in a map whose dotted keys extend into the same object
+		other.Merge(map[string]interface{}{"k": c, "k.added": 1, "k.o.added": 2, "l": []interface{}{c}, "l.0.added": 3}, opts...)
+	case 17:
+		// merge source captured in a struct field, next to a field whose dotted name reaches into it
+		other.Merge(struct {
+			K *ucfg.Config `config:"k"`
+			X int          `config:"k.added"`
+			Y int          `config:"k.o.added"`
+		}{c, 1, 2}, opts...)
+	case 18:
+		ch, err := c.Child("o", -1, opts...)
+		if err == nil {
+			other.Merge(map[string]interface{}{"k": ch, "k.added": 1}, opts...)
+			other.Merge(ch, opts...)
 		}
 	case 15:
 		c.Remove("zz", -1, opts...) // removing something that does not exist changes nothing
